@@ -62,3 +62,32 @@ Theorem c07_history_in_order : forall cfg h e tr d st' o ms ver d0 p tnf s1,
     Forall2 (fun r m => convert_nf cfg (pVer p) base up r = Ok m) (data_records (pSets p)) ms0 /\ ms = map f ms0.
 Proof. exact step_messages_in_order. Qed.
 Print Assumptions c07_history_in_order.
+
+(* ---- none invented, for the whole datagram and EVERY byte string --------------------------------------------
+   present_nf_body (Spec/Present.v) counts the complete data records PHYSICALLY PRESENT in a v9 / IPFIX datagram from
+   its bytes and the exporter's templates alone: for each data set of a known template, the bytes its length word
+   covers (clipped to what was received) divided by the least size of one record.  For EVERY pipe state, exporter,
+   receive time and byte string -- truncated, with inflated counts or lengths, anything -- the messages handed to the
+   transport are at most that many; and that count is itself at most the number of bytes received. *)
+From GF Require Import Spec.Present Proofs.PresentP.
+Theorem c07_nf_none_invented : forall cfg st e tr d st' o ms ver d0,
+  rd 2 d = Ok (ver, d0) -> (ver =? 5) = false ->
+  nf_step cfg st e tr d = Ok (st', o, ms) ->
+  (length ms <= present_nf_body (tstores_get (psT st) (exp_id e)) ver d0)%nat.
+Proof. exact nf_step_none_invented. Qed.
+Print Assumptions c07_nf_none_invented.
+
+Theorem c07_present_is_physical : forall st ver d, (present_nf_body st ver d <= length d)%nat.
+Proof. exact present_nf_body_le. Qed.
+Print Assumptions c07_present_is_physical.
+
+(* non-vacuity: an IPFIX template of one 4-byte field, then a data set whose length word covers 10 bytes of body:
+   two complete records are present (the last two bytes are no record) *)
+Example c07_present_example :
+  let t := [0;10; 0;28; 0;0;0;0; 0;0;0;1; 0;0;0;7;  0;2; 0;12; 1;0; 0;1; 0;1;0;4] in
+  let dd := [0;30; 0;0;0;0; 0;0;0;2; 0;0;0;7;  1;0; 0;14; 1;2;3;4; 5;6;7;8; 9;9] in
+  match decode_nf [] t with
+  | Ok (_, _, st) => present_nf_body st 10 dd = 2%nat
+  | _ => False
+  end.
+Proof. vm_compute. reflexivity. Qed.
